@@ -21,7 +21,7 @@ use std::cell::RefCell;
 use std::collections::{BTreeMap, HashMap};
 use vcore::Val;
 use vcore::rng::{Rng, fnv_parts};
-use vcore::run::{Finish, Run, par_range};
+use vcore::run::{Finish, Run, Tier, par_range};
 use vcore::ty::{self, TSer, TVal, Ty, TyCfg, TyGrammar};
 use vcore::tygen::{self, Opt, Stage};
 
@@ -789,7 +789,7 @@ fn applicable(site: &deco::Site, rng: &mut Rng, atoms: &[(&'static str, String)]
     // returns the wrapper stack for this site, outermost first
     let mut ws: Vec<Wrap> = Vec::new();
     let generic = |rng: &mut Rng| if rng.bool() { Wrap::Commented(random_comment(rng, atoms)) } else { Wrap::SpaceAfter };
-    let n_generic = *rng.pick(&[0usize, 1, 1, 2]);
+    let n_generic = *rng.pick(&[0usize, 1, 1, 2, 2, 3]);
     for _ in 0..n_generic {
         ws.push(generic(rng));
     }
@@ -820,10 +820,10 @@ fn random_opt(rng: &mut Rng) -> Opt {
     let bits = rng.below(128) as u8;
     let mut o = Opt::from_bits(bits, *rng.pick(&[2usize, 2, 2, 4, 1, 3, 8]));
     if rng.chance(1, 2) {
-        o.min_fold_chars = *rng.pick(&[0usize, 8, 64]);
+        o.min_fold_chars = *rng.pick(&[0usize, 1, 8, 64, 1000]);
     }
     if rng.chance(1, 2) {
-        o.folded_wrap_chars = *rng.pick(&[8usize, 20, 40, 200]);
+        o.folded_wrap_chars = *rng.pick(&[0usize, 1, 8, 20, 40, 200]);
     }
     o
 }
@@ -881,12 +881,9 @@ fn random_clean_ty(rng: &mut Rng, depth: usize) -> Ty {
     }
 }
 
-fn is_clean(ty: &Ty, v: &TVal) -> bool {
-    tygen::c13_shape_class(ty, v).is_none()
-}
 
 fn random_case(rng: &mut Rng, atoms: &[(&'static str, String)], lines: &[String]) -> Option<Case> {
-    let depth = rng.range(1, 5);
+    let depth = rng.range(1, 6);
     let cfg = TyCfg { nullable_in_option: false, defaults: false, deny_unknown: false, bytes: false, floats: true };
     // half of the cases use a grammar without tuple structs / tuple variants / composite keys (more
     // wrapper positions per case), the other half the full C13 grammar; any option vector
@@ -945,71 +942,201 @@ fn main() {
     let atoms = comment_atoms();
     let lines = content_lines();
 
-    // ---- part A (systematic): one wrapper stack at every position of every small tree
+    // ---- part A (systematic): wrapper stacks (depth 1..3) at every position of every small tree
     let g = TyGrammar::full();
     let only_derived = std::env::var_os("C20_ONLY_DERIVED").is_some();
-    let small: Vec<(Ty, TVal)> = if only_derived { Vec::new() } else { ty::small_pairs(tier.pick(3, 3), &g, tier.pick(4, 8)) };
-    run.count("systematic/host_pairs", small.len() as u64);
-    run.count("systematic/host_pairs_outside_C13_finding_shapes", small.iter().filter(|(t, v)| is_clean(t, v)).count() as u64);
-    let sys_opts: Vec<Opt> = {
+    let small2: Vec<(Ty, TVal)> = if only_derived { Vec::new() } else { ty::small_pairs(2, &g, 8) };
+    let small3: Vec<(Ty, TVal)> =
+        if only_derived { Vec::new() } else { ty::small_pairs(3, &g, tier.pick(4, 8)).into_iter().filter(|(t, _)| t.node_count() == 3).collect() };
+    // thorough: one node more (2 values per type), single wrappers only
+    let small4: Vec<(Ty, TVal)> =
+        if only_derived || tier == Tier::Quick { Vec::new() } else { ty::small_pairs(4, &g, 2).into_iter().filter(|(t, _)| t.node_count() == 4).collect() };
+    run.count("systematic/host_pairs_4_nodes", small4.len() as u64);
+    run.count("systematic/host_pairs_le_2_nodes", small2.len() as u64);
+    run.count("systematic/host_pairs_3_nodes", small3.len() as u64);
+    let full_grid: Vec<Opt> = {
+        let mut v = Vec::new();
+        for indent in [2usize, 1, 4] {
+            for bits in 0..128u8 {
+                v.push(Opt::from_bits(bits, indent));
+            }
+        }
+        v
+    };
+    let grid48: Vec<Opt> = {
+        let mut v = Vec::new();
+        for indent in [2usize, 1, 4] {
+            for b in [0u8, 0x7f, 0x55, 0x2a, 0x33, 0x4c, 0x0f, 0x70, 0x01, 0x02, 0x04, 0x08, 0x10, 0x20, 0x40, 0x3f] {
+                v.push(Opt::from_bits(b, indent));
+            }
+        }
+        v
+    };
+    // corners of the two numeric thresholds (and further indent steps)
+    let corner_opts: Vec<Opt> = {
         let d = Opt::default();
-        vec![
-            d,
-            Opt { indent: 4, compact_list_indent: true, ..d },
-            Opt { quote_all: true, ..d },
-            Opt { prefer_block_scalars: false, min_fold_chars: 0, ..d },
-            Opt { folded_wrap_chars: 8, tagged_enums: true, empty_as_braces: false, ..d },
-        ]
+        let mut v = vec![d];
+        for mf in [0usize, 1, 8, 1000] {
+            for wrap in [0usize, 1, 8, 20] {
+                v.push(Opt { min_fold_chars: mf, folded_wrap_chars: wrap, ..d });
+            }
+        }
+        for indent in [3usize, 5, 8] {
+            v.push(Opt { indent, ..d });
+            v.push(Opt { indent, compact_list_indent: true, prefer_block_scalars: false, ..d });
+        }
+        v.push(Opt { quote_all: true, ..d });
+        v.push(Opt { tagged_enums: true, empty_as_braces: false, folded_wrap_chars: 8, ..d });
+        v
     };
     let sys_comments = ["note", "x\ry: 1", "a\nb # c: d", "\u{2028}- z\u{85}w", "--- ]}"];
-    par_range(small.len(), |i| {
-        let (t, v) = &small[i];
+    let note = || Wrap::Commented("note".into());
+    // (single-wrapper stacks, deeper stacks) of a site
+    let stacks_for = |s: &deco::Site| -> (Vec<Vec<Wrap>>, Vec<Vec<Wrap>>) {
+        let mut single: Vec<Vec<Wrap>> = vec![vec![Wrap::SpaceAfter], vec![note()]];
+        let mut deep: Vec<Vec<Wrap>> = vec![
+            vec![Wrap::SpaceAfter, note()],
+            vec![note(), Wrap::SpaceAfter],
+            vec![Wrap::SpaceAfter, Wrap::SpaceAfter, note()],
+            vec![note(), Wrap::Commented("second".into()), Wrap::SpaceAfter],
+        ];
+        for cm in &sys_comments[1..] {
+            deep.push(vec![Wrap::Commented(cm.to_string())]);
+        }
+        match s.kind {
+            "seq" | "seq-empty" | "tuple" => {
+                single.push(vec![Wrap::FlowSeq]);
+                deep.push(vec![note(), Wrap::FlowSeq]);
+                deep.push(vec![Wrap::SpaceAfter, Wrap::FlowSeq]);
+                deep.push(vec![Wrap::SpaceAfter, note(), Wrap::FlowSeq]);
+                deep.push(vec![Wrap::FlowSeq, Wrap::SpaceAfter, note()]);
+            }
+            "map" | "map-empty" | "struct" => {
+                single.push(vec![Wrap::FlowMap]);
+                deep.push(vec![note(), Wrap::FlowMap]);
+                deep.push(vec![Wrap::SpaceAfter, Wrap::FlowMap]);
+                deep.push(vec![note(), Wrap::SpaceAfter, Wrap::FlowMap]);
+                deep.push(vec![Wrap::FlowMap, note(), Wrap::SpaceAfter]);
+            }
+            _ => {}
+        }
+        if s.text.is_some() {
+            for w in [Wrap::Lit, Wrap::LitOwned, Wrap::Fold, Wrap::FoldOwned] {
+                single.push(vec![w.clone()]);
+                deep.push(vec![Wrap::SpaceAfter, w.clone()]);
+                deep.push(vec![note(), w.clone()]);
+                deep.push(vec![Wrap::SpaceAfter, note(), w.clone()]);
+                deep.push(vec![note(), Wrap::SpaceAfter, w]);
+            }
+        }
+        (single, deep)
+    };
+    let run_stack = |t: &Ty, v: &TVal, s: &deco::Site, st: &Vec<Wrap>, grid: &[Opt], sample_key: usize| {
+        for (j, o) in grid.iter().enumerate() {
+            let mut decs = Decs::default();
+            decs.0.insert(s.path.clone(), st.clone());
+            let mut c = Case { ty: t.clone(), v: v.clone(), decs, o: *o };
+            make_tolerances_unambiguous(&mut c);
+            if c.decs.count() == 0 {
+                continue;
+            }
+            if j == 0 {
+                run.observe("wrapper_positions(kind/in-key/wrappers)", &format!("{}/{}/{}", s.kind, s.in_key, st.iter().map(|w| w.name()).collect::<Vec<_>>().join(">")));
+            }
+            judge(&run, &c, "systematic");
+            if (sample_key + j) % 49999 == 0 {
+                run.sample(|| {
+                    let mut cj = c.to_json("systematic");
+                    cj["emitted"] = json!(tygen::emit(&DSer::root(&c.ty, &c.v, &c.decs), &c.o).ok());
+                    cj
+                });
+            }
+        }
+    };
+    // every position decorated at once: Commented on every scalar, SpaceAfter on every node, both
+    let run_all_positions = |t: &Ty, v: &TVal, grid: &[Opt]| {
         let sites = deco::sites(t, v);
-        for s in &sites {
-            let mut stacks: Vec<Vec<Wrap>> = vec![vec![Wrap::SpaceAfter], vec![Wrap::SpaceAfter, Wrap::Commented("note".into())]];
-            for cm in sys_comments {
-                stacks.push(vec![Wrap::Commented(cm.to_string())]);
+        let scalar = |s: &deco::Site| deco::node_at(t, v, &s.path).map(|(ct, cv)| deco::child_steps(ct, cv).is_empty()).unwrap_or(false);
+        let plans: Vec<Vec<(Path, Vec<Wrap>)>> = vec![
+            sites.iter().filter(|s| scalar(s)).map(|s| (s.path.clone(), vec![note()])).collect(),
+            sites.iter().map(|s| (s.path.clone(), vec![Wrap::SpaceAfter])).collect(),
+            sites.iter().map(|s| (s.path.clone(), if scalar(s) { vec![Wrap::SpaceAfter, note()] } else { vec![Wrap::SpaceAfter] })).collect(),
+            sites.iter().filter(|s| !s.in_key).map(|s| (s.path.clone(), if scalar(s) { vec![note(), Wrap::SpaceAfter] } else { vec![note()] })).collect(),
+        ];
+        for plan in plans {
+            if plan.is_empty() {
+                continue;
             }
-            match s.kind {
-                "seq" | "seq-empty" | "tuple" => {
-                    stacks.push(vec![Wrap::FlowSeq]);
-                    stacks.push(vec![Wrap::Commented("note".into()), Wrap::FlowSeq]);
-                    stacks.push(vec![Wrap::SpaceAfter, Wrap::FlowSeq]);
+            for o in grid {
+                let mut decs = Decs::default();
+                for (p, ws) in &plan {
+                    decs.0.insert(p.clone(), ws.clone());
                 }
-                "map" | "map-empty" | "struct" => {
-                    stacks.push(vec![Wrap::FlowMap]);
-                    stacks.push(vec![Wrap::SpaceAfter, Wrap::FlowMap]);
-                }
-                _ => {}
+                let c = Case { ty: t.clone(), v: v.clone(), decs, o: *o };
+                judge(&run, &c, "all-positions");
+                lcount("all_positions/cases", 1);
             }
-            if s.text.is_some() {
-                for w in [Wrap::Lit, Wrap::LitOwned, Wrap::Fold, Wrap::FoldOwned] {
-                    stacks.push(vec![w.clone()]);
-                    stacks.push(vec![Wrap::SpaceAfter, w.clone()]);
-                    stacks.push(vec![Wrap::Commented("note".into()), w]);
-                }
+        }
+    };
+    // <= 2 type nodes: single stacks and all-positions plans under the full grid, deeper stacks under 48 + corners
+    par_range(small2.len(), |i| {
+        let (t, v) = &small2[i];
+        for s in &deco::sites(t, v) {
+            let (single, deep) = stacks_for(s);
+            for (k, st) in single.iter().enumerate() {
+                run_stack(t, v, s, st, &full_grid, i * 31 + k);
+                run_stack(t, v, s, st, &corner_opts, i * 17 + k);
             }
-            for (k, st) in stacks.iter().enumerate() {
-                for (j, o) in sys_opts.iter().enumerate() {
-                    let mut decs = Decs::default();
-                    decs.0.insert(s.path.clone(), st.clone());
-                    let mut c = Case { ty: t.clone(), v: v.clone(), decs, o: *o };
-                    make_tolerances_unambiguous(&mut c);
-                    if c.decs.count() == 0 {
-                        continue;
-                    }
-                    run.observe("wrapper_positions(kind/in-key/wrappers)", &format!("{}/{}/{}", s.kind, s.in_key, st.iter().map(|w| w.name()).collect::<Vec<_>>().join(">")));
-                    judge(&run, &c, "systematic");
-                    if (i * 7 + k * 3 + j) % 9973 == 0 {
-                        run.sample(|| {
-                            let mut cj = c.to_json("systematic");
-                            cj["emitted"] = json!(tygen::emit(&DSer::root(&c.ty, &c.v, &c.decs), &c.o).ok());
-                            cj
-                        });
-                    }
+            for (k, st) in deep.iter().enumerate() {
+                run_stack(t, v, s, st, &grid48, i * 13 + k);
+                run_stack(t, v, s, st, &corner_opts, i * 11 + k);
+            }
+        }
+        run_all_positions(t, v, &full_grid);
+        run_all_positions(t, v, &corner_opts);
+        flush_local(&run);
+    });
+    // 3 type nodes: quick = corners for every stack; thorough = full grid for single stacks and
+    // all-positions plans, 48 + corners for the deeper stacks
+    par_range(small3.len(), |i| {
+        let (t, v) = &small3[i];
+        for s in &deco::sites(t, v) {
+            let (single, deep) = stacks_for(s);
+            for (k, st) in single.iter().enumerate() {
+                if tier == Tier::Thorough {
+                    run_stack(t, v, s, st, &full_grid, i * 31 + k);
+                }
+                if tier == Tier::Quick {
+                    run_stack(t, v, s, st, &grid48, i * 31 + k);
+                }
+                run_stack(t, v, s, st, &corner_opts, i * 17 + k);
+            }
+            for (k, st) in deep.iter().enumerate() {
+                if tier == Tier::Thorough {
+                    run_stack(t, v, s, st, &grid48, i * 13 + k);
+                    run_stack(t, v, s, st, &corner_opts[..9], i * 11 + k);
+                } else {
+                    run_stack(t, v, s, st, &corner_opts[..9], i * 11 + k);
                 }
             }
         }
+        if tier == Tier::Thorough {
+            run_all_positions(t, v, &full_grid);
+        } else {
+            run_all_positions(t, v, &grid48);
+        }
+        flush_local(&run);
+    });
+
+    par_range(small4.len(), |i| {
+        let (t, v) = &small4[i];
+        for s in &deco::sites(t, v) {
+            let (single, _) = stacks_for(s);
+            for (k, st) in single.iter().enumerate() {
+                run_stack(t, v, s, st, &grid48, i * 31 + k);
+            }
+        }
+        run_all_positions(t, v, &grid48[..16]);
         flush_local(&run);
     });
 
@@ -1127,7 +1254,7 @@ fn main() {
     }
 
     // ---- part C: random decorated trees
-    let n_random = if only_derived { 0 } else { std::env::var("C20_RANDOM").ok().and_then(|s| s.parse().ok()).unwrap_or(tier.pick(250_000usize, 3_000_000)) };
+    let n_random = if only_derived { 0 } else { std::env::var("C20_RANDOM").ok().and_then(|s| s.parse().ok()).unwrap_or(tier.pick(500_000usize, 10_000_000)) };
     par_range(n_random, |i| {
         let mut rng = Rng::stream(run.seed, i as u64);
         let Some(c) = random_case(&mut rng, &atoms, &lines) else {
@@ -1181,7 +1308,7 @@ fn main() {
         "a case (type, value, wrappers at node paths, option vector) is non-trivial when it was judged (held) and has >= 1 wrapper on a non-root node or an option that differs from the default; distinct by hash(type, value, decorations, options)",
     )
     .exhaustive(
-        "systematic part only: every (type, value) of the C13 shape grammar with <= 3 type nodes (value lists strided) x every node position (incl. map keys) x every applicable single wrapper stack from a fixed list (SpaceAfter, Commented with 5 comment texts incl. CR/LF/U+2028/U+0085, FlowSeq/FlowMap alone and under Commented/SpaceAfter, the four block-string wrappers alone and under SpaceAfter/Commented) x 5 option vectors; options-only relation on all pairs with <= 2 type nodes x 2^6 booleans x indent {2,1,4}",
+        "systematic parts: (A) every (type, value) of the C13 shape grammar with <= 2 type nodes (8 values per type) x every node position (incl. keys, inside composite keys, variant payloads, values under composite keys) x every applicable single wrapper (SpaceAfter, Commented, FlowSeq/FlowMap, LitStr, LitString, FoldStr, FoldString) x [all 2^7 booleans x indent {2,1,4} = 384 vectors + 25 corner vectors (min_fold_chars {0,1,8,1000} x folded_wrap_chars {0,1,8,20}, indent {3,5,8}, quote_all, tagged+no-braces)], x 13..21 deeper stacks of depth 2..3 (SpaceAfter/Commented/Flow*/block-string orders, 4 hostile comment texts) x [48 + 25 vectors], and 4 all-positions plans (Commented on every scalar, SpaceAfter on every node, both in either order) x [384 + 25]; the same for 3 type nodes (4 values per type, thorough 8): thorough = single stacks and all-positions x 384 (+25 corners), deeper stacks x (48 + 9 corners); thorough only: 4 type nodes (2 values per type) x single wrappers x 48, all-positions x 16; quick = single stacks x (48 + 25), deeper stacks x 9 corner vectors, all-positions x 48; (A2) 48 control-character comment texts x 4 placements x first/middle/last/all siblings of 5 hosts x 2 vectors; (A3) SpaceAfter stacks on 9 strings ending in kept breaks x 19 hosts x 4 vectors; (B) options-only relation on all pairs with <= 2 type nodes x 2^6 booleans x indent {2,1,4}",
     )
     .assume("the bare value under the same options must pass the C13 oracle, otherwise no verdict here (C13 reports it)")
     .assume("documented lossy behaviour is unspecified: folded interior line breaks, clip-chomping of several trailing breaks under FoldStr/FoldString (SpaceAfter around LitStr/LitString is judged strictly: the emitter suppresses the blank line after a keep-chomped scalar)")
